@@ -4,7 +4,7 @@ CONSTANTS
   Ufuncs <- Q_ChainUfuncs
   Methods <- AllMethods
   DKinds <- Q_DKinds
-  OutRK <- G_OutRK
+  OutRK <- C_OutRK
   AsDtypes <- Q_AsDtypes
   MaxDepth = 3
   FreeDepth = 1
